@@ -24,7 +24,7 @@ import (
 )
 
 type c19PECase struct {
-	What     string    `json:"what"` // definition | submission | envelope
+	What     string    `json:"what"` // definition | submission | envelope | jwt-vp-claims | jwt-vp-header | jwt-vc-claims
 	PD       int       `json:"pd"`
 	Envelope int       `json:"envelope"` // 0 JSON-LD VP object, 1 array of VPs, 2 JWT VP string, 3 array with JWT + JSON-LD
 	Plan     c19x.Plan `json:"plan"`
@@ -40,7 +40,7 @@ const c19PEHolder = "did:web:example.com:iam:holder"
 
 func c19PEGen(t *rapid.T) c19PECase {
 	return c19PECase{
-		What:     rapid.SampledFrom([]string{"definition", "definition", "submission", "envelope"}).Draw(t, "what"),
+		What:     rapid.SampledFrom([]string{"definition", "definition", "submission", "envelope", "jwt-vp-claims", "jwt-vp-claims", "jwt-vp-header", "jwt-vc-claims"}).Draw(t, "what"),
 		PD:       rapid.IntRange(0, len(c19PEFiles)-1).Draw(t, "pd"),
 		Envelope: rapid.IntRange(0, 3).Draw(t, "envelope"),
 		Plan:     c19x.GenPlan(t, c19PEKeys),
@@ -58,14 +58,45 @@ func c19PECredentials() (ld map[string]any, jwtVC string) {
 	return ld, jwtVC
 }
 
-func c19PEEnvelopeSeed(kind int) []byte {
+// c19PEJWTParts are the JSON parts of the JWT-form inputs; a case may replace one of them by a mutated version.
+type c19PEJWTParts struct {
+	vpHeader, vpClaims, vcClaims []byte // nil = the valid one
+}
+
+func c19PEEnvelopeSeed(kind int) []byte { return c19PEEnvelope(kind, c19PEJWTParts{}) }
+
+// c19PEValidJWTParts returns the valid header and claims of the JWT presentation and the claims of the JWT credential.
+func c19PEValidJWTParts() c19PEJWTParts {
 	ld, jwtVC := c19PECredentials()
+	_, vcClaims, _, _ := c19x.SplitCompact(jwtVC)
+	vpClaims := map[string]any{"iss": c19PEHolder, "sub": c19PEHolder, "jti": c19PEHolder + "#vp", "nbf": json.Number("1700000000"), "exp": json.Number("1893456000"),
+		"aud": "did:web:example.com:iam:verifier", "nonce": "n-1",
+		"vp": map[string]any{"@context": []any{"https://www.w3.org/2018/credentials/v1"}, "type": []any{"VerifiablePresentation"}, "verifiableCredential": []any{jwtVC, ld}}}
+	return c19PEJWTParts{vpHeader: []byte(`{"alg":"ES256","kid":"` + c19PEHolder + `#0","typ":"JWT"}`), vpClaims: jsonmut.Encode(vpClaims), vcClaims: vcClaims}
+}
+
+func c19PEEnvelope(kind int, parts c19PEJWTParts) []byte {
+	ld, jwtVC := c19PECredentials()
+	valid := c19PEValidJWTParts()
+	if parts.vcClaims != nil {
+		// the JWT credential with mutated claims, embedded in the presentations
+		jwtVC = c19x.Compact([]byte(`{"alg":"ES384","kid":"did:web:example.com:iam:issuer#0","typ":"JWT"}`), parts.vcClaims, c19x.SigGarbage)
+		var vpc map[string]any
+		if json.Unmarshal(valid.vpClaims, &vpc) == nil {
+			vpc["vp"].(map[string]any)["verifiableCredential"] = []any{jwtVC, ld}
+			valid.vpClaims = jsonmut.Encode(vpc)
+		}
+	}
+	if parts.vpHeader == nil {
+		parts.vpHeader = valid.vpHeader
+	}
+	if parts.vpClaims == nil {
+		parts.vpClaims = valid.vpClaims
+	}
 	vpLD := map[string]any{"@context": []any{"https://www.w3.org/2018/credentials/v1"}, "type": []any{"VerifiablePresentation"}, "holder": c19PEHolder,
 		"verifiableCredential": []any{ld, jwtVC},
 		"proof":                map[string]any{"type": "JsonWebSignature2020", "verificationMethod": c19PEHolder + "#0", "jws": "e30..AAAA", "created": "2024-01-01T00:00:00Z", "proofPurpose": "authentication"}}
-	vpClaims := map[string]any{"iss": c19PEHolder, "sub": c19PEHolder, "jti": c19PEHolder + "#vp", "nbf": json.Number("1700000000"),
-		"vp": map[string]any{"@context": []any{"https://www.w3.org/2018/credentials/v1"}, "type": []any{"VerifiablePresentation"}, "verifiableCredential": []any{jwtVC, ld}}}
-	vpJWT := c19x.Compact([]byte(`{"alg":"ES256","kid":"`+c19PEHolder+`#0","typ":"JWT"}`), jsonmut.Encode(vpClaims), c19x.SigGarbage)
+	vpJWT := c19x.Compact(parts.vpHeader, parts.vpClaims, c19x.SigGarbage)
 	switch kind {
 	case 1:
 		return jsonmut.Encode([]any{vpLD, vpLD})
@@ -80,6 +111,10 @@ func c19PEEnvelopeSeed(kind int) []byte {
 func c19PERun(x *h.Ctx, c c19PECase) {
 	var pdRaw, subRaw, envRaw []byte
 	var creds []vc.VerifiableCredential
+	envKind := ((c.Envelope % 4) + 4) % 4
+	if (c.What == "jwt-vp-claims" || c.What == "jwt-vp-header") && envKind < 2 {
+		envKind += 2 // an envelope that contains the JWT presentation (2: the JWT itself, 3: array of JWT and JSON-LD)
+	}
 	c19x.Setup(x, "pe fixture", func() {
 		var err error
 		pdRaw, err = os.ReadFile(h.RepoPath(c19PEFiles[((c.PD%len(c19PEFiles))+len(c19PEFiles))%len(c19PEFiles)]))
@@ -90,7 +125,7 @@ func c19PERun(x *h.Ctx, c c19PECase) {
 		c2, err := vc.ParseVerifiableCredential(jwtVC)
 		x.NoErr(err, "parse JWT credential")
 		creds = []vc.VerifiableCredential{*c1, *c2}
-		envRaw = c19PEEnvelopeSeed(c.Envelope)
+		envRaw = c19PEEnvelopeSeed(envKind)
 		// a valid submission for the valid definition
 		pd, err := ParsePresentationDefinition(pdRaw)
 		x.NoErr(err, "parse definition fixture")
@@ -99,7 +134,7 @@ func c19PERun(x *h.Ctx, c c19PECase) {
 		sub, _, err := b.Build("ldp_vp")
 		x.NoErr(err, "build submission")
 		sub.Id = "fixed-id"
-		if c.Envelope == 1 || c.Envelope == 3 {
+		if envKind == 1 || envKind == 3 {
 			// several presentations: entries are addressed through path_nested
 			for i := range sub.DescriptorMap {
 				inner := sub.DescriptorMap[i]
@@ -116,6 +151,22 @@ func c19PERun(x *h.Ctx, c c19PECase) {
 		pdRaw, ap = c.Plan.Apply(pdRaw)
 	case "submission":
 		subRaw, ap = c.Plan.Apply(subRaw)
+	case "jwt-vp-claims", "jwt-vp-header", "jwt-vc-claims":
+		// claim-level mutation of the JWT-form inputs: decode, mutate the claims (or header) object itself, re-encode.
+		// The envelope parser does not check signatures, so the signature stays garbage.
+		valid := c19PEValidJWTParts()
+		var parts c19PEJWTParts
+		switch c.What {
+		case "jwt-vp-claims":
+			parts.vpClaims, ap = c.Plan.Apply(valid.vpClaims)
+		case "jwt-vp-header":
+			parts.vpHeader, ap = c.Plan.Apply(valid.vpHeader)
+		default:
+			parts.vcClaims, ap = c.Plan.Apply(valid.vcClaims)
+		}
+		if !ap.Oversize {
+			envRaw = c19PEEnvelope(envKind, parts)
+		}
 	default:
 		envRaw, ap = c.Plan.Apply(envRaw)
 	}
@@ -127,8 +178,11 @@ func c19PERun(x *h.Ctx, c c19PECase) {
 		x.Class(cl)
 	}
 	x.Class("mutated=" + c.What)
-	mutated := map[string][]byte{"definition": pdRaw, "submission": subRaw, "envelope": envRaw}[c.What]
-	if c19x.IsJSON(mutated) || (c.What == "envelope" && c.Envelope == 2) {
+	mutated, known := map[string][]byte{"definition": pdRaw, "submission": subRaw, "envelope": envRaw}[c.What]
+	if !known {
+		mutated = envRaw // JWT-form mutation: the envelope is a JWS or a JSON array holding one
+	}
+	if c19x.IsJSON(mutated) || envKind == 2 {
 		x.NonTrivial()
 		x.Class("stage1:is-JSON-or-JOSE")
 	}
